@@ -14,6 +14,9 @@ def main(path):
         run.setup_registry()
         if d.get("task"):
             o = getattr(funcs, d["task"][0])(*d["task"][1])
+            if isinstance(o, list):       # a driver that yields several observations: the one for the recorded input
+                same = [x for x in o if x.get("samples") == d["observation"].get("samples") or x.get("sched") == d["observation"].get("sched")]
+                o = (same or o)[0]
         else:
             o = d["observation"]
         v, _ = funcs.validate(d["module"], d["cfg"], [o], shards=1)
